@@ -259,6 +259,23 @@ PARAM_FORMS = ["int p%d", "char *p%d", "int p%d[3]", "const char *p%d", "int (*p
 def build_params(d, n, ctx):
     name = "test.c" if ctx["where"] == "def" else "test.h"
     params = ", ".join(ctx["forms"][k % len(ctx["forms"])] % k for k in range(n))
+    if ctx["where"] in ("def-fptr-ret", "proto-fptr-ret"):
+        # the function returns a pointer to function: its own parameters are the inner list
+        ret_params = ", ".join(["int"] * ctx.get("ret_n", 1))
+        decl = "void\t(*ft_m(%s))(%s)" % (params, ret_params)
+        if vwidth(decl) > 79:
+            return None
+        if ctx["where"] == "def-fptr-ret":
+            name = "test.c"
+            lines = hdr(name) + simple_func("ft_before", 2) + [""]
+            m = len(lines) + 1
+            lines += [decl, "{", "\treturn (NULL);", "}"]
+        else:
+            name = "test.h"
+            lines = hdr(name) + ["#ifndef TEST_H", "# define TEST_H", "", "void\tft_other(int a, int b);"]
+            m = len(lines) + 1
+            lines += [decl + ";", "", "#endif"]
+        return name, "\n".join(lines) + "\n", (m, m)
     if ctx["where"] == "def":
         head = "int\tft_m(%s)" % params
         if vwidth(head) > 80:
@@ -304,7 +321,7 @@ def context(d):
     if limit == "funcs":
         return limit, {"protos": d.bool(0.4), "sizes": [d.int(1, 6) for _ in range(4)]}, d
     if limit == "params":
-        return limit, {"where": d.choice(["def", "proto"]), "forms": [d.choice(PARAM_FORMS) for _ in range(4)]}, d
+        return limit, {"where": d.choice(["def", "proto", "def-fptr-ret", "proto-fptr-ret"]), "forms": [d.choice(PARAM_FORMS) for _ in range(4)], "ret_n": d.int(1, 6)}, d
     return limit, {"forms": [d.choice(DECL_FORMS) for _ in range(4)], "before": d.int(0, 5)}, d
 
 
